@@ -30,7 +30,8 @@ SUBST = ['stdnum.isbn', 'stdnum.ean', 'stdnum.issn', 'stdnum.ismn', 'stdnum.imei
 TRANSP = ['stdnum.isbn', 'stdnum.issn', 'stdnum.isni', 'stdnum.iban', 'stdnum.lei', 'stdnum.iso11649', 'stdnum.in_.aadhaar', 'stdnum.in_.vid']
 # ISBN-13 (EAN) is not claimed for transpositions, ISBN-10 is: lengths
 TRANSP_LENGTHS = {'stdnum.isbn': {9, 10}}
-IMEI_LENGTHS = {'stdnum.imei': {15}}
+# formats where only some lengths are protected by the algorithm the property names
+ONLY_LENGTHS = {'stdnum.imei': {15}, 'stdnum.no.kontonr': {7}}
 
 
 def checker_factory(modname):
@@ -40,7 +41,7 @@ def checker_factory(modname):
     def checker(sw, p, v, opts, n):
         vs = tostr(v)
         L = len(vs)
-        if modname == 'stdnum.imei' and L != 15:
+        if modname in ONLY_LENGTHS and L not in ONLY_LENGTHS[modname]:
             return
         if opts and any(val is False for val in opts.values()) and modname != 'stdnum.iban':
             pass
@@ -150,7 +151,7 @@ def bounded(rep, tier):
                 v = mod.validate(x)
             except Exception:      # noqa: B902
                 continue
-            if m == 'stdnum.imei' and len(v) != 15:
+            if m in ONLY_LENGTHS and len(v) not in ONLY_LENGTHS[m]:
                 continue
             for i, c in enumerate(v):
                 alts = '0123456789' if c.isdigit() else 'ABCDEFGHIJKLMNOPQRSTUVWXYZ' if c.isalpha() and c.isascii() else ''
